@@ -1,0 +1,299 @@
+//go:build verif
+
+// Contracts for govc (contract-based deductive verification); comments only.
+package resourcereservation
+
+// ---- ghost API store (DESIGN 1.9) ------------------------------------------------------------
+// gone(p): the pod object p is absent from the API store (deleted, or found to be already deleted).
+// Only the assumed contract of the client's Delete writes it. Every client call has a
+// nondeterministic outcome (the returned error is unconstrained), which is the universal
+// quantification over "every failing call index".
+//@ ghost gone(p *v1.Pod) bool
+//@ declare isNotFoundErr(e ref) bool
+//@ axiom !isNotFoundErr(nil)
+//@ define podOf(o ref) *v1.Pod = unbox(o, "*v1.Pod")
+
+// ASSUMED contracts of external code.
+// Delete: success or NotFound => the object is gone; any other error => store unchanged.
+//@ func sigs.k8s.io/controller-runtime/pkg/client.WithWatch.Delete
+//@   props C17 C11
+//@   requires obj != nil
+//@   modifies family(gone(nil))
+//@   ensures forall q *v1.Pod :: q != podOf(obj) ==> gone(q) == old(gone(q))
+//@   ensures typeis(obj, "*v1.Pod") && (result == nil || isNotFoundErr(result)) ==> gone(podOf(obj))
+//@   ensures !(typeis(obj, "*v1.Pod") && (result == nil || isNotFoundErr(result))) ==> gone(podOf(obj)) == old(gone(podOf(obj)))
+//@ end
+
+//@ func k8s.io/apimachinery/pkg/api/errors.IsNotFound
+//@   props C17 C11
+//@   pure
+//@   ensures result == isNotFoundErr(err)
+//@ end
+
+// C17: "no running pod stays attached to a group that has no reservation": every Running pod of the
+// slice is deleted, nothing else is (Pending ones are left alone); stops at the first failing delete.
+//@ func (*service).deleteNonReservedPods
+//@   props C17
+//@   requires rsc != nil && rsc.kubeClient != nil
+//@   requires forall i int :: 0 <= i && i < len(pods) ==> pods[i] != nil
+//@   modifies family(gone(nil))
+//@   loop 1
+//@     invariant 0 - 1 <= rangeindex && rangeindex < len(pods)
+//@     invariant forall i int :: 0 <= i && i <= rangeindex && pods[i].Status.Phase == "Running" ==> gone(pods[i])
+//@     invariant forall p *v1.Pod :: gone(p) != old(gone(p)) ==> p != nil && p.Status.Phase == "Running" && (exists i int :: 0 <= i && i <= rangeindex && pods[i] == p)
+//@     decreases len(pods) - rangeindex
+//@   ensures [all-running-deleted] result == nil ==> (forall i int :: 0 <= i && i < len(pods) && pods[i].Status.Phase == "Running" ==> gone(pods[i]))
+//@   ensures [only-running-of-slice-deleted] forall p *v1.Pod :: gone(p) != old(gone(p)) ==> p != nil && gone(p) && p.Status.Phase == "Running" && (exists i int :: 0 <= i && i < len(pods) && pods[i] == p)
+//@ end
+
+// A reservation pod that is already gone counts as deleted.
+//@ func (*service).deleteReservationPod
+//@   props C17
+//@   requires rsc != nil && rsc.kubeClient != nil && pod != nil
+//@   modifies gone(pod)
+//@   ensures result == nil ==> gone(pod)
+//@   ensures result != nil ==> gone(pod) == old(gone(pod))
+//@ end
+
+// ---- syncForPods ----------------------------------------------------------------------------
+// C17: "a reservation pod exists if and only if at least one live pod still carries that group, and
+// no running pod stays attached to a group that has no reservation."
+// pods = everything listed for the group: reservation pods are the ones in the service namespace,
+// live consumers are Pending/Running pods of other namespaces.
+//@ define isRes(rsc *service, p *v1.Pod) bool = p.Namespace == rsc.namespace
+//@ define isLive(rsc *service, p *v1.Pod) bool = p.Namespace != rsc.namespace && (p.Status.Phase == "Running" || p.Status.Phase == "Pending")
+//@ define hasRes(rsc *service, s []*v1.Pod, n int) bool = exists i int :: 0 <= i && i < n && isRes(rsc, s[i])
+//@ define hasLive(rsc *service, s []*v1.Pod, n int) bool = exists i int :: 0 <= i && i < n && isLive(rsc, s[i])
+
+//@ func (*service).syncForPods
+//@   props C17
+//@   requires rsc != nil && rsc.kubeClient != nil
+//@   requires forall i int :: 0 <= i && i < len(pods) ==> pods[i] != nil
+//@   modifies family(gone(nil))
+//@   loop 1
+//@     invariant 0 - 1 <= rangeindex && rangeindex < len(pods)
+//@     invariant reservationPods != nil && fractionPods != nil
+//@     invariant forall k in reservationPods :: k == gpuGroupToSync
+//@     invariant forall k in fractionPods :: k == gpuGroupToSync
+//@     invariant (gpuGroupToSync in reservationPods) == hasRes(rsc, pods, rangeindex + 1)
+//@     invariant gpuGroupToSync in reservationPods ==> reservationPods[gpuGroupToSync] != nil && isRes(rsc, reservationPods[gpuGroupToSync]) && (exists j int :: 0 <= j && j <= rangeindex && reservationPods[gpuGroupToSync] == pods[j])
+//@     invariant (gpuGroupToSync in fractionPods) == hasLive(rsc, pods, rangeindex + 1)
+//@     invariant forall m int :: 0 <= m && m < len(fractionPods[gpuGroupToSync]) ==> fractionPods[gpuGroupToSync][m] != nil
+//@     invariant forall m int :: 0 <= m && m < len(fractionPods[gpuGroupToSync]) ==> fractionPods[gpuGroupToSync][m].Namespace != rsc.namespace
+//@     invariant forall m int :: 0 <= m && m < len(fractionPods[gpuGroupToSync]) ==> fractionPods[gpuGroupToSync][m].Status.Phase == "Running" || fractionPods[gpuGroupToSync][m].Status.Phase == "Pending"
+//@     decreases len(pods) - rangeindex
+//@   loop 2
+//@     invariant forall k in visited :: (k in reservationPods) || (forall m int :: 0 <= m && m < len(fractionPods[k]) && fractionPods[k][m].Status.Phase == "Running" ==> gone(fractionPods[k][m]))
+//@     invariant forall p *v1.Pod :: gone(p) != old(gone(p)) ==> p != nil && gone(p) && isLive(rsc, p) && p.Status.Phase == "Running" && !(gpuGroupToSync in reservationPods)
+//@   loop 3
+//@     invariant forall k in visited :: (k in fractionPods) || gone(reservationPods[k])
+//@     invariant forall p *v1.Pod :: gone(p) != old(gone(p)) ==> p != nil && gone(p) && ((isLive(rsc, p) && p.Status.Phase == "Running" && !(gpuGroupToSync in reservationPods)) || (isRes(rsc, p) && !(gpuGroupToSync in fractionPods)))
+// NOT CLAIMED here (solver limit, see report): "result == nil && no reservation pod ==> every Running consumer of
+// pods is gone". It needs the loop-1 invariant  forall j . live(pods[j]) ==> exists m . fractionPods[g][m] == pods[j],
+// whose preservation across `append` no solver decides in 10 s. The callee deleteNonReservedPods carries the
+// corresponding fact for the slice it is given ([all-running-deleted]).
+// "a reservation pod exists [only] if at least one live pod still carries that group"
+//@   ensures [reservation-without-consumers-deleted] result == nil && hasRes(rsc, pods, len(pods)) && !hasLive(rsc, pods, len(pods)) ==> (exists j int :: 0 <= j && j < len(pods) && isRes(rsc, pods[j]) && gone(pods[j]))
+// "... if and only if ...": nothing is deleted without that justification; in particular a reservation pod
+// is never deleted while a live consumer is listed, a consumer never while a reservation pod is listed.
+//@   ensures [only-justified-deletes] forall p *v1.Pod :: gone(p) != old(gone(p)) ==> p != nil && gone(p) && ((isLive(rsc, p) && p.Status.Phase == "Running" && !hasRes(rsc, pods, len(pods))) || (isRes(rsc, p) && !hasLive(rsc, pods, len(pods))))
+//@ end
+
+// ---- the service as seen by the binder (package binding): ASSUMED interface contracts ----------
+// SyncForNode / ReserveGpuDevice / RemovePodGpuGroupsConnection may delete pods (gone) and relabel the in-memory
+// pod; they never touch the pods/binding sub-resource.
+// syncRequested(g): a SyncForGpuGroup(g) has been issued (by an event handler) since the ghost was last cleared
+//@ ghost syncRequested(g string) bool
+//@ func Interface.SyncForGpuGroup
+//@   props C17
+//@   modifies family(gone(nil)), family(syncRequested(""))
+//@   ensures syncRequested(gpuGroup)
+//@   ensures forall g string :: old(syncRequested(g)) ==> syncRequested(g)
+//@   ensures forall g string :: g != gpuGroup ==> syncRequested(g) == old(syncRequested(g))
+//@ end
+// protocol counters: how often the binder asked for a node-wide sync / for the removal of a pod's GPU-group labels
+//@ ghost nodeSyncs() int
+//@ ghost labelRemovals() int
+// lastNodeSyncSawRemovals(): the value of labelRemovals() at the time of the most recent node-wide sync, i.e. which
+// label removals that sync could already see in the store. C17: "... bind failures ... and the sync that follows
+// them": a sync only cleans up after a label removal that happened BEFORE it.
+//@ ghost lastNodeSyncSawRemovals() int
+//@ func Interface.SyncForNode
+//@   props C11 C17
+//@   modifies family(gone(nil)), nodeSyncs(), lastNodeSyncSawRemovals()
+//@   ensures nodeSyncs() == old(nodeSyncs()) + 1
+//@   ensures lastNodeSyncSawRemovals() == labelRemovals()
+//@ end
+
+// ---- API-store model of the consumer pod's labels -----------------------------------------------
+// podRev(p): revision of p's API object (a successful label patch produces a new one, a failing patch none);
+// labelAt(p, rev, k): value of label k of that revision ("" = absent; GPU-group labels are never empty strings).
+// Only the assumed contracts of Patch / RemovePodGpuGroupsConnection write podRev.
+//@ ghost podRev(p *v1.Pod) int
+//@ declare labelAt(p ref, rev int, k string) string
+//@ define labelStored(p *v1.Pod, k string) string = labelAt(p, podRev(p), k)
+// value of the runai-gpu-group label of pod p in the API store
+//@ define groupLabelStored(p *v1.Pod) string = labelStored(p, "runai-gpu-group")
+// label key of a multi-fraction pod for group g (resources.GetMultiFractionGpuGroupLabel)
+//@ define multiKey(g string) string = "runai-gpu-group/" + g
+// single-fraction pod: no gpu-fraction-num-devices annotation, or one that parses to <= 1 (defines of package resources)
+//@ define singleFraction(pod *v1.Pod) bool = !resources.hasCount(pod) || (resources.piOk(resources.countStr(pod)) && resources.piVal(resources.countStr(pod)) <= 1)
+//@ define multiFraction(pod *v1.Pod) bool = resources.hasCount(pod) && resources.piOk(resources.countStr(pod)) && resources.piVal(resources.countStr(pod)) > 1
+
+// C11: "... the attempt's side effects removed or removable by the next sync": Rollback removes the GPU-group labels
+// it finds on the IN-MEMORY pod, so a successful reservation must leave the label it stored on the caller's pod too.
+//@ func Interface.ReserveGpuDevice
+//@   props C11 C17
+//@   requires pod != nil
+//@   modifies family(gone(nil)), pod.Labels, pod.Labels[*], pod.ResourceVersion, podRev(pod)
+//@   ensures result1 == nil && old(singleFraction(pod)) ==> ("runai-gpu-group" in pod.Labels) && pod.Labels["runai-gpu-group"] == gpuGroup
+//@   ensures result1 == nil && old(multiFraction(pod)) ==> (multiKey(gpuGroup) in pod.Labels) && pod.Labels[multiKey(gpuGroup)] == gpuGroup
+//@   ensures result1 == nil ==> forall k string :: labelStored(pod, k) == pod.Labels[k]
+//@   ensures forall k string :: old(k in pod.Labels) ==> (k in pod.Labels)
+//@   ensures pod.Labels == old(pod.Labels) || fresh(pod.Labels)
+//@ end
+// The remove-patch is built from the labels of the in-memory pod: on success exactly its runai-gpu-group and
+// runai-gpu-group/<g> labels leave the store (a JSON-patch "remove" of an absent path fails the whole patch); a
+// failing patch changes nothing. The response is decoded into the pod.
+//@ func Interface.RemovePodGpuGroupsConnection
+//@   props C11 C17
+//@   requires pod != nil
+//@   modifies fields(pod), labelRemovals(), podRev(pod)
+//@   ensures labelRemovals() == old(labelRemovals()) + 1
+//@   ensures pod.Name == old(pod.Name) && pod.Namespace == old(pod.Namespace) && pod.UID == old(pod.UID)
+//@   ensures result == nil && old("runai-gpu-group" in pod.Labels) ==> labelStored(pod, "runai-gpu-group") == ""
+//@   ensures result == nil ==> forall g string :: old(multiKey(g) in pod.Labels) ==> labelStored(pod, multiKey(g)) == ""
+//@   ensures result == nil ==> forall k string :: !old(k in pod.Labels) ==> labelStored(pod, k) == old(labelStored(pod, k))
+//@   ensures result != nil ==> podRev(pod) == old(podRev(pod))
+//@ end
+
+// ---- findGPUIndexByGroup ------------------------------------------------------------------------
+// ASSUMED contract of List for a *v1.PodList: on success the list holds exactly what the options select; the two
+// options used by findGPUIndexByGroup are InNamespace(ns) (first option) and MatchingLabels{k: v}.
+//@ define podListOf(o ref) *v1.PodList = unbox(o, "*v1.PodList")
+// lastListCount(): number of pods returned by the most recent successful List
+//@ ghost lastListCount() int
+//@ define nsOpt(o ref) string = unbox(o, "client.InNamespace")
+//@ func sigs.k8s.io/controller-runtime/pkg/client.WithWatch.List
+//@   props C17
+//@   requires list != nil
+//@   modifies fields(podListOf(list)), lastListCount()
+//@   ensures result == nil && typeis(list, "*v1.PodList") ==> lastListCount() == len(podListOf(list).Items)
+//@   ensures result == nil && typeis(list, "*v1.PodList") && len(opts) > 0 && typeis(opts[0], "client.InNamespace") ==> (forall i int :: 0 <= i && i < len(podListOf(list).Items) ==> podListOf(list).Items[i].Namespace == nsOpt(opts[0]))
+//@ end
+
+// C17: "every pod bound into the group is given that reservation pod's device index": the index handed out for a
+// group is the run.ai/reserve_for_gpu_index annotation of a pod listed in the reservation namespace; "" (= create a
+// new reservation pod) only when no such pod is listed; a reservation pod without the annotation is an error.
+//@ func (*service).findGPUIndexByGroup
+//@   props C17
+//@   requires rsc != nil && rsc.kubeClient != nil
+//@   modifies lastListCount()
+//@   lemma [empty-index-means-nothing-listed] err == nil && gpuIndex == "" ==> lastListCount() == 0 || (len(pods.Items) > 0 && pods.Items[0].Annotations["run.ai/reserve_for_gpu_index"] == "")
+//@   lemma [index-comes-from-a-reservation-pod] err == nil && gpuIndex != "" ==> len(pods.Items) > 0 && pods.Items[0].Namespace == rsc.namespace && ("run.ai/reserve_for_gpu_index" in pods.Items[0].Annotations) && gpuIndex == pods.Items[0].Annotations["run.ai/reserve_for_gpu_index"]
+//@   ensures [error-carries-no-index] err != nil ==> gpuIndex == ""
+//@   lemma [listed-pod-without-annotation-is-an-error] len(pods.Items) > 0 && !("run.ai/reserve_for_gpu_index" in pods.Items[0].Annotations) ==> err != nil
+//@ end
+
+// ---- lock protocol (sequential) ---------------------------------------------------------------
+//@ import gm "github.com/NVIDIA/KAI-scheduler/pkg/binder/binding/resourcereservation/group_mutex"
+// the group-wide sync must only run under the group's lock: `requires` is proved at BOTH call sites
+// (SyncForGpuGroup and the label-patch failure path of ReserveGpuDevice).
+//@ func (*service).syncForGpuGroupWithLock
+//@   props C17
+//@   requires rsc != nil && rsc.kubeClient != nil
+//@   requires gm.held(gpuGroup)
+//@   modifies family(gone(nil)), lastListCount()
+//@   loop 1
+//@     invariant 0 <= rangeint_iter && rangeint_iter < len(podsList.Items)
+//@     invariant forall i int :: 0 <= i && i < len(pods) ==> pods[i] != nil
+//@     decreases len(podsList.Items) - rangeint_iter
+//@   loop 2
+//@     invariant 0 <= rangeint_iter && rangeint_iter < len(multiFractionsPodsList.Items)
+//@     invariant forall i int :: 0 <= i && i < len(pods) ==> pods[i] != nil
+//@     decreases len(multiFractionsPodsList.Items) - rangeint_iter
+//@   ensures [only-justified-deletes] forall p *v1.Pod :: gone(p) != old(gone(p)) ==> p != nil && gone(p) && (isRes(rsc, p) || (isLive(rsc, p) && p.Status.Phase == "Running"))
+//@ end
+
+// C17: "label patch fails => syncForGpuGroupWithLock runs before the lock is released" (the callee's `requires held`),
+// and the lock is released on every path.
+//@ func (*service).SyncForGpuGroup
+//@   props C17
+//@   requires rsc != nil && rsc.kubeClient != nil && rsc.gpuGroupMutex != nil
+//@   modifies family(gone(nil)), family(gm.held("")), rsc.gpuGroupMutex.mutexMap[*], rsc.gpuGroupMutex.mutexRefsMap[*], lastListCount()
+//@   ensures [lock-released] !gm.held(gpuGroup)
+//@ end
+
+// ---- ReserveGpuDevice ---------------------------------------------------------------------------
+// reservationCreates(): number of reservation pods created
+//@ ghost reservationCreates() int
+
+// create + wait-for-index: waitForGPUReservationPodAllocation is a select over a watch channel and timers
+// (channels/select are outside the subset); createGPUReservationPod uses rand.String and resource.Quantity.
+//@ func (*service).createGPUReservationPodAndGetIndex
+//@   props C17
+//@   trusted
+//@   note select/channels (waitForGPUReservationPodAllocation), rand.String, resource.NewQuantity: outside the subset; summary taken from the code: one reservation pod is created, "-1" is returned exactly with an error (and the pod is deleted again)
+//@   requires rsc != nil && rsc.kubeClient != nil
+//@   modifies family(gone(nil)), reservationCreates(), lastListCount()
+//@   ensures reservationCreates() == old(reservationCreates()) + 1
+//@   ensures (err != nil) == (gpuIndex == "-1")
+//@ end
+
+// C17: "For every GPU group there is at most one reservation pod" (sequential part, conditional on the lock):
+// find-then-create - a reservation pod is created only when the lookup succeeded and listed none.
+//@ func (*service).acquireGPUIndexByGroup
+//@   props C17
+//@   requires rsc != nil && rsc.kubeClient != nil
+//@   modifies family(gone(nil)), reservationCreates(), lastListCount()
+//@   ensures [at-most-one-create] reservationCreates() <= old(reservationCreates()) + 1
+//@   ensures [found-index-is-reused] result1 == nil && reservationCreates() == old(reservationCreates()) ==> result0 != ""
+//@ end
+
+// Patch(pod, MergeFrom(original)) on the pod: success stores the in-memory labels (new revision), failure stores nothing.
+//@ func sigs.k8s.io/controller-runtime/pkg/client.WithWatch.Patch
+//@   props C17 C11
+//@   requires obj != nil
+//@   modifies podOf(obj).ResourceVersion, podRev(podOf(obj))
+//@   ensures result == nil && typeis(obj, "*v1.Pod") ==> (forall k string :: labelStored(podOf(obj), k) == podOf(obj).Labels[k])
+//@   ensures !(result == nil && typeis(obj, "*v1.Pod")) ==> podRev(podOf(obj)) == old(podRev(podOf(obj)))
+//@ end
+
+// C17: "success => the pod is labelled with g"
+// C11: "... or unbound with the request reported Failed and the attempt's side effects removed or removable by the
+// next sync": Binder.Rollback -> RemovePodGpuGroupsConnection removes the group labels it finds on the caller's
+// IN-MEMORY pod. So whatever this function stores in the API must also be on the pod object the caller passed in:
+// a label that is stored but not in memory can never be rolled back.
+//@ func (*service).updatePodGPUGroup
+//@   props C17 C11
+//@   requires rsc != nil && rsc.kubeClient != nil && pod != nil
+//@   modifies pod.Labels, pod.Labels[*], pod.ResourceVersion, podRev(pod)
+//@   ensures [single-fraction-pod-labelled-with-the-group] result == nil && old(singleFraction(pod)) ==> groupLabelStored(pod) == gpuGroup
+//@   ensures [multi-fraction-pod-labelled-with-the-group] result == nil && old(multiFraction(pod)) ==> labelStored(pod, multiKey(gpuGroup)) == gpuGroup
+//@   ensures [failure-leaves-the-stored-label] result != nil ==> groupLabelStored(pod) == old(groupLabelStored(pod))
+//@   ensures [failure-stores-nothing] result != nil ==> podRev(pod) == old(podRev(pod))
+//@   ensures [in-memory-single-fraction-pod-carries-the-group-label] result == nil && old(singleFraction(pod)) ==> ("runai-gpu-group" in pod.Labels) && pod.Labels["runai-gpu-group"] == gpuGroup
+//@   ensures [in-memory-multi-fraction-pod-carries-the-group-label] result == nil && old(multiFraction(pod)) ==> (multiKey(gpuGroup) in pod.Labels) && pod.Labels[multiKey(gpuGroup)] == gpuGroup
+//@   ensures [stored-labels-are-the-in-memory-labels] result == nil ==> forall k string :: labelStored(pod, k) == pod.Labels[k]
+//@   ensures [in-memory-labels-only-grow] forall k string :: old(k in pod.Labels) ==> (k in pod.Labels)
+//@   ensures [labels-map-kept-or-new] pod.Labels == old(pod.Labels) || fresh(pod.Labels)
+//@ end
+
+// C17: "every pod bound into the group is given that reservation pod's device index"; "label patch fails =>
+// syncForGpuGroupWithLock runs before the lock is released" (call-site obligation `requires gm.held` of the callee).
+// C11 (see updatePodGPUGroup): success leaves the stored label on the caller's in-memory pod, where Rollback looks.
+//@ func (*service).ReserveGpuDevice
+//@   props C17 C11
+//@   requires rsc != nil && rsc.kubeClient != nil && rsc.gpuGroupMutex != nil && pod != nil
+//@   modifies family(gone(nil)), family(gm.held("")), rsc.gpuGroupMutex.mutexMap[*], rsc.gpuGroupMutex.mutexRefsMap[*], lastListCount(), reservationCreates(), pod.Labels, pod.Labels[*], pod.ResourceVersion, podRev(pod)
+//@   ensures [lock-released] !gm.held(gpuGroup)
+//@   ensures [failure-returns-the-unknown-index] result1 != nil ==> result0 == "-1"
+//@   ensures [success-labels-the-pod] result1 == nil && old(singleFraction(pod)) ==> groupLabelStored(pod) == gpuGroup
+//@   ensures [success-labels-the-multi-fraction-pod] result1 == nil && old(multiFraction(pod)) ==> labelStored(pod, multiKey(gpuGroup)) == gpuGroup
+//@   ensures [in-memory-single-fraction-pod-carries-the-group-label] result1 == nil && old(singleFraction(pod)) ==> ("runai-gpu-group" in pod.Labels) && pod.Labels["runai-gpu-group"] == gpuGroup
+//@   ensures [in-memory-multi-fraction-pod-carries-the-group-label] result1 == nil && old(multiFraction(pod)) ==> (multiKey(gpuGroup) in pod.Labels) && pod.Labels[multiKey(gpuGroup)] == gpuGroup
+//@   ensures [stored-labels-are-the-in-memory-labels] result1 == nil ==> forall k string :: labelStored(pod, k) == pod.Labels[k]
+//@   ensures [in-memory-labels-only-grow] forall k string :: old(k in pod.Labels) ==> (k in pod.Labels)
+//@   ensures [labels-map-kept-or-new] pod.Labels == old(pod.Labels) || fresh(pod.Labels)
+//@   ensures [at-most-one-create] reservationCreates() <= old(reservationCreates()) + 1
+//@ end
